@@ -260,11 +260,16 @@ def getTimescale (cal : Cal) (a : Args) : Except Err TS :=
 
 /-! ### Timescale.GetLODs -/
 
+/-- `for i < lod.Len { end = StepForward(end) }` -/
+def segEnd (cal : Cal) (step : Int) : Nat → Int → Int
+  | 0, t => t
+  | n + 1, t => segEnd cal step n (stepForward cal t step)
+
 /-- (FromSec, ToSec, StepSec) -/
 def lodRanges (cal : Cal) : List LOD → Int → List (Int × Int × Int)
   | [], _ => []
   | l :: ls, start =>
-    (start, (genSeg cal l.step l.len start).2, l.step) :: lodRanges cal ls (genSeg cal l.step l.len start).2
+    (start, segEnd cal l.step l.len start, l.step) :: lodRanges cal ls (segEnd cal l.step l.len start)
 
 def getLODs (cal : Cal) (utcOffset : Int) (ts : TS) (offset : Int) : List (Int × Int × Int) :=
   match ts.time with
